@@ -247,6 +247,17 @@ def case(W, cfg):
                           "%s [%s]: set_metrics %s, specification says %s" % (lab, glab, out, want_out))
                 W.require("registry", obs == model_obs(model),
                           "%s [%s]: registry %s, want %s (each slot holds the most recent registrant; refused registration leaves it)" % (lab, glab, obs, model_obs(model)))
+            # get_metric depends only on the final registry, not on what was asked before: the same registrations on a
+            # grid that is queried (every position, interpolating where it must) before and between the calls
+            if (len(pre) + len(sel)) <= 3:
+                g_obs = fresh()
+                queries(W, g_obs, lab)
+                for grp in groupings(sel)[-1]:
+                    if apply_calls(g_obs, [(key, grp, ow)]) != "ok":
+                        break  # like the unobserved twin: a refused call ends the sequence
+                    queries(W, g_obs, lab)
+                W.require("registry-observed", observed(g_obs) == results[-1][2], "%s: registry of a grid that was queried in between %s vs %s" % (lab, observed(g_obs), results[-1][2]))
+                compare_queries(W, "queried-in-between-vs-not", queries(W, g_obs, lab), queries(W, results[-1][3], lab))
             # get_metric depends only on the final registry: batch vs one-at-a-time
             if len(results) > 1 and len(sel) >= 2 and (len(pre) + len(sel)) <= 4:
                 qa = queries(W, results[0][3], lab)
@@ -285,7 +296,7 @@ def case_hist(W, cfg, ds):
 
 
 def finding_key(cfg, v):
-    if v["label"] in ("registry", "get_metric-same-value:batch-vs-single", "hist-registry") :
+    if v["label"] in ("registry", "get_metric-same-value:batch-vs-single", "hist-registry"):
         return "batch-into-existing-key-keeps-last"
     return v["label"]
 
